@@ -19,7 +19,11 @@ def reg(check, level_text=None, level_note=None, technique=None, design_ref=None
 def _load():
     import props
     for m in sorted(pkgutil.iter_modules(props.__path__), key=lambda x: x.name):
-        importlib.import_module("props." + m.name)
+        try:
+            importlib.import_module("props." + m.name)
+        except Exception as e:  # one broken registration must not take the others down
+            import sys
+            print("registry: props.%s not loaded: %r" % (m.name, e), file=sys.stderr)
 
 
 _load()
